@@ -154,93 +154,126 @@ def rule_matrix(chk, prog):
 
 
 # ------------------------------------------------------------------ extension helpers
-def _y_only_indexed(t, y):
-  """True when every use of `y` inside t is a scalar index or one of the singleton slices y[:1] / y[-1:] (so t has length one)."""
-  def ok_sub(x):
-    if x.a[1].k == 'const' and isinstance(x.a[1].a[0], int):
-      return True
-    if x.a[1].k == 'slice':
-      lo, hi, st = x.a[1].a
-      return st == sym.NONE and ((lo in (sym.NONE, sym.const(0)) and hi == sym.const(1)) or (lo == sym.const(-1) and hi == sym.NONE))
-    return False
-  def rec(x):
-    if x == y:
-      return False
-    if x.k == 'sub' and x.a[0] == y:
-      return ok_sub(x)
-    if x.k == 'sub' and match.concat_parts(x.a[0]) is not None:
-      return x.a[1].k == 'const'
-    for c in x.a:
-      if isinstance(c, Term) and not rec(c):
-        return False
-      if isinstance(c, tuple):
-        for z in c:
-          if isinstance(z, Term) and not rec(z):
-            return False
-          if isinstance(z, tuple) and any(isinstance(w, Term) and not rec(w) for w in z):
-            return False
-    return True
-  return rec(t)
+class Ends:
+  """Array-ends domain: what is known about a 1-D array built from `y` — its leading and trailing elements as exact
+  expressions in y[0], y[1], y[-2], y[-1], whether the array is fully known (`exact`), and how many copies of y it embeds."""
+
+  def __init__(self, head, tail, exact, ycount=0):
+    self.head, self.tail, self.exact, self.ycount = list(head), list(tail), exact, ycount
+
+  @staticmethod
+  def scalar(e):
+    return ('scalar', e)
 
 
-def flatten_concat(t, y):
-  """[('y',) | ('one', scalar-valued term)] for nested concatenations around y, or None."""
-  while t.k == 'call' and alg.ext_short(t.a[0]) in ('array', 'asarray') and len(t.a[1]) == 1 and t.a[1][0].k not in ('list', 'tuple'):
-    t = t.a[1][0]
+Y0, Y1, YM2, YM1 = sp.symbols('y_0 y_1 y_m2 y_m1')
+
+
+def ends_of(t, y):
+  """Ends | ('scalar', expr) | None (not understood) for a term built from y."""
+  t = util.strip(t) if t.k == 'bcast' else t
   if t == y:
-    return [('y',)]
-  cp = match.concat_parts(t)
-  if cp is not None:
-    out = []
-    for p in cp[0]:
-      f = flatten_concat(p, y)
-      if f is None:
+    return Ends([Y0, Y1], [YM2, YM1], False, 1)
+  if t.k == 'const' and isinstance(t.a[0], (int, float)) and not isinstance(t.a[0], bool):
+    return ('scalar', alg.exact(t.a[0]))
+  if t.k in ('list', 'tuple'):
+    xs = [ends_of(x, y) for x in t.a]
+    if all(x is not None and x[0] == 'scalar' for x in xs if not isinstance(x, Ends)) and not any(isinstance(x, Ends) for x in xs) and all(x is not None for x in xs):
+      vals = [x[1] for x in xs]
+      return Ends(vals, vals, True)
+    return None
+  if t.k == 'call':
+    short = alg.ext_short(t.a[0])
+    args = t.a[1]
+    if short in ('array', 'asarray', 'atleast_1d') and len(args) >= 1:
+      e = ends_of(args[0], y)
+      if e is not None and not isinstance(e, Ends):
+        return Ends([e[1]], [e[1]], True)
+      return e
+    if short == 'diff' and len(args) == 1 and not [k for k, _ in t.a[2] if k in ('prepend', 'append', 'n')]:
+      e = ends_of(args[0], y)
+      if not isinstance(e, Ends):
         return None
-      out += f
-    return out
-  inner = t
-  while True:
-    if inner.k in ('list', 'tuple') and len(inner.a) == 1:
-      inner = inner.a[0]
-    elif inner.k == 'call' and alg.ext_short(inner.a[0]) in ('array', 'asarray') and len(inner.a[1]) == 1:
-      inner = inner.a[1][0]
-    else:
-      break
-  if _y_only_indexed(inner, y):
-    return [('one', inner)]
-  return None
-
-
-def y_index(t, y):
-  """j when t denotes the element y[j] (j ∈ {0, 1, −1, −2}), looking through indexing into concatenations around y."""
-  if t.k != 'sub':
-    return None
-  base, idx = t.a
-  if base == y:
-    if idx.k == 'const' and isinstance(idx.a[0], int):
-      return idx.a[0]
-    if idx.k == 'slice' and idx.a[2] == sym.NONE:
-      if idx.a[0] in (sym.NONE, sym.const(0)) and idx.a[1] == sym.const(1):
-        return 0
-      if idx.a[0] == sym.const(-1) and idx.a[1] == sym.NONE:
-        return -1
-    return None
-  if idx.k != 'const' or not isinstance(idx.a[0], int):
-    return None
-  parts = flatten_concat(base, y)
-  if parts is None:
-    return None
-  i = idx.a[0]
-  seq = parts if i >= 0 else list(reversed(parts))
-  k = i if i >= 0 else -i - 1
-  for p in seq:
-    if p[0] == 'y':
-      if k <= 1:
-        return k if i >= 0 else -k - 1
+      if e.exact:
+        d = [b - a for a, b in zip(e.head, e.head[1:])]
+        return Ends(d, d, True)
+      return Ends([e.head[1] - e.head[0]] if len(e.head) >= 2 else [], [e.tail[-1] - e.tail[-2]] if len(e.tail) >= 2 else [], False, 0)
+    if short in ('concatenate', 'hstack', 'append'):
+      cp = match.concat_parts(t) if short == 'concatenate' else None
+      parts = cp[0] if cp is not None else (list(args[0].a) if short == 'hstack' and args and args[0].k in ('list', 'tuple') else (list(args[:2]) if short == 'append' else None))
+      if parts is None:
+        return None
+      es = [ends_of(p_, y) for p_ in parts]
+      if any(e is None for e in es):
+        return None
+      es = [Ends([e[1]], [e[1]], True) if not isinstance(e, Ends) else e for e in es]
+      head, tail = [], []
+      for e in es:
+        head += e.head
+        if not e.exact:
+          break
+      for e in reversed(es):
+        tail = e.tail + tail
+        if not e.exact:
+          break
+      exact = all(e.exact for e in es)
+      return Ends(head, tail if not exact else head, exact, sum(e.ycount for e in es))
+    if short == 'pad':
       return None
-    if k == 0:
-      return y_index(p[1], y) if p[1].k == 'sub' else None
-    k -= 1
+  if t.k == 'sub':
+    e = ends_of(t.a[0], y)
+    idx = t.a[1]
+    if not isinstance(e, Ends):
+      return None
+    if idx.k == 'const' and isinstance(idx.a[0], int):
+      i = idx.a[0]
+      try:
+        return ('scalar', e.head[i] if i >= 0 else e.tail[i])
+      except IndexError:
+        return None
+    if idx.k == 'slice' and idx.a[2] == sym.NONE:
+      lo, hi = idx.a[0], idx.a[1]
+      cv = lambda z: None if z == sym.NONE else (z.a[0] if z.k == 'const' and isinstance(z.a[0], int) else 'x')
+      lo, hi = cv(lo), cv(hi)
+      if 'x' in (lo, hi):
+        return None
+      if (lo in (None, 0)) and hi is not None and hi > 0 and hi <= len(e.head):
+        return Ends(e.head[:hi], e.head[:hi], True)
+      if lo is not None and lo < 0 and hi is None and -lo <= len(e.tail):
+        return Ends(e.tail[lo:], e.tail[lo:], True)
+      if e.exact:
+        part = e.head[slice(lo, hi)]
+        return Ends(part, part, True)
+    return None
+  if t.k == 'un' and t.a[0] == '-':
+    e = ends_of(t.a[1], y)
+    if e is None:
+      return None
+    if isinstance(e, Ends):
+      return Ends([-x for x in e.head], [-x for x in e.tail], e.exact, 0)
+    return ('scalar', -e[1])
+  if t.k == 'bin' and t.a[0] in ('+', '-', '*', '/'):
+    a, b = ends_of(t.a[1], y), ends_of(t.a[2], y)
+    if a is None or b is None:
+      return None
+    f = {'+': lambda p_, q_: p_ + q_, '-': lambda p_, q_: p_ - q_, '*': lambda p_, q_: p_ * q_, '/': lambda p_, q_: p_ / q_}[t.a[0]]
+    if not isinstance(a, Ends) and not isinstance(b, Ends):
+      return ('scalar', f(a[1], b[1]))
+    if isinstance(a, Ends) and isinstance(b, Ends):
+      if a.exact != b.exact or (a.exact and len(a.head) != len(b.head)):
+        # a one-element array broadcasts against any array
+        if a.exact and len(a.head) == 1:
+          a = ('scalar', a.head[0])
+        elif b.exact and len(b.head) == 1:
+          b = ('scalar', b.head[0])
+        else:
+          return None
+      else:
+        n_h, n_t = min(len(a.head), len(b.head)), min(len(a.tail), len(b.tail))
+        return Ends([f(p_, q_) for p_, q_ in zip(a.head[:n_h], b.head[:n_h])], [f(p_, q_) for p_, q_ in zip(a.tail[len(a.tail) - n_t:], b.tail[len(b.tail) - n_t:])], a.exact, 0)
+    if isinstance(a, Ends):
+      return Ends([f(p_, b[1]) for p_ in a.head], [f(p_, b[1]) for p_ in a.tail], a.exact, 0)
+    return Ends([f(a[1], q_) for q_ in b.head], [f(a[1], q_) for q_ in b.tail], b.exact, 0)
   return None
 
 
@@ -251,18 +284,16 @@ def rule_extension(chk, prog):
   f = prog.func(f'{VI}._extrapolate_both')
   v, _, _ = ev.run(f)
   site, loc = f'{VI}._extrapolate_both', (f.file, f.lineno)
-  parts = flatten_concat(v, y)
-  if parts is None:
+  e = ends_of(v, y)
+  if not isinstance(e, Ends) or e.exact or len(e.head) < 2 or len(e.tail) < 2:
     raise AnalysisError(f'{site}: unrecognised construction {sym.show(v, maxdepth=4)[:160]}')
-  shape = [p[0] for p in parts]
-  if chk.check(shape == ['one', 'y', 'one'], rule, f'{site}: one value is added before y and one after it; y itself is kept unchanged', str(shape), loc, "['one', 'y', 'one']", str(shape)):
-    A = alg.Algebra(ev, strip_index=False)
-    sy = {j: A.name(lambda t, j=j: y_index(t, y) == j, n) for j, n in ((0, 'y_0'), (1, 'y_1'), (-1, 'y_m1'), (-2, 'y_m2'))}
-    first, last = A.conv(parts[0][1]), A.conv(parts[2][1])
-    chk.check(alg.equal(first, 2 * sy[0] - sy[1]), rule, f'{site}: the value added in front is y[0] − (y[1] − y[0]) — the first cell continued with its own slope', sym.show(parts[0][1], maxdepth=5)[:120], loc,
-              '2*y[0] - y[1]', str(sp.simplify(first)))
-    chk.check(alg.equal(last, 2 * sy[-1] - sy[-2]), rule, f'{site}: the value added at the end is y[-1] + (y[-1] − y[-2]) — the last cell continued with its own slope (not the first cell\'s)',
-              sym.show(parts[2][1], maxdepth=5)[:120], loc, '2*y[-1] - y[-2]', str(sp.simplify(last)))
+  chk.check(e.ycount == 1 and alg.equal(e.head[1], Y0) and alg.equal(e.tail[-2], YM1), rule, f'{site}: one value is added before y and one after it; y itself is kept unchanged',
+            f'embeds y {e.ycount}×; second element {e.head[1]}, last but one {e.tail[-2]}', loc, 'y once, neighbours y[0] / y[-1]', f'{e.head[1]}, {e.tail[-2]}')
+  first, last = sp.expand(e.head[0]), sp.expand(e.tail[-1])
+  chk.check(alg.equal(first, 2 * Y0 - Y1), rule, f'{site}: the value added in front is y[0] − (y[1] − y[0]) — the first cell continued with its own slope', str(first), loc,
+            '2*y[0] - y[1]', str(first))
+  chk.check(alg.equal(last, 2 * YM1 - YM2), rule, f'{site}: the value added at the end is y[-1] + (y[-1] − y[-2]) — the last cell continued with its own slope (not the first cell\'s)',
+            str(last), loc, '2*y[-1] - y[-2]', str(last))
   # safe extrapolation: same helper, same count, NaN beyond
   evs = sym.Evaluator(prog, sym.Options(opaque={f'{VI}._extrapolate_both'}))
   f = prog.func(f'{VI}._linear_interp_with_safe_extrap')
